@@ -2,7 +2,7 @@
 # no check may raise an alarm (exit 1) on a behaviour-preserving refactoring
 cd /verif; bad=0
 for p in seeded/harmless/*.diff; do
-  case $(basename $p) in H14*) props="C12 C17 C09";; H13*) props="C12 C17";; H12*) props="C09 C17 C14 C07 C06";; H11*) props="C14 C20";; H10*) props="C14 C01 C06 C13";; H1_*) props="C15 C02 C03 C16 C18";; H2*) props="C04 C13 C16 C11";; H3*) props="C12 C05 C17";; H4*) props="C09 C06 C17";; H5*) props="C11 C05 C02 C16";; H6*) props="C07 C18 C17";; H7*) props="C10 C08 C17 C20";; H8*) props="C01 C17 C14 C03";; H9*) props="C11 C13";; esac
+  case $(basename $p) in H17*) props="C10 C08 C07 C06 C17 C18";; H16*) props="C13 C11 C12 C16";; H15*) props="C15 C02 C03 C16 C01 C19";; H14*) props="C12 C17 C09";; H13*) props="C12 C17";; H12*) props="C09 C17 C14 C07 C06";; H11*) props="C14 C20";; H10*) props="C14 C01 C06 C13";; H1_*) props="C15 C02 C03 C16 C18";; H2*) props="C04 C13 C16 C11";; H3*) props="C12 C05 C17";; H4*) props="C09 C06 C17";; H5*) props="C11 C05 C02 C16";; H6*) props="C07 C18 C17";; H7*) props="C10 C08 C17 C20";; H8*) props="C01 C17 C14 C03";; H9*) props="C11 C13";; esac
   out=$(tools/try_mutant.sh /verif/$p $props 2>&1 | grep "^==")
   echo "$(basename $p): $(echo $out | tr '\n' ' ')"
   echo "$out" | grep -q "exit=1" && bad=1
